@@ -47,6 +47,8 @@ def build_menu(w, sc):
         opsets.append(cands_all[0][1])
     if len(cands_ready) > 1:
         opsets.append(cands_ready[1][1][:1])
+    if w.multi and cands_all and len(cands_all[0][1]) > 2:
+        opsets.append(cands_all[0][1][:2])       # a proper prefix: the rest of the pipeline stays outside the container
     for ops in opsets:
         for pid in range(w.npools):
             for cpu, ram in sizes(ex.pools[pid]):
@@ -66,14 +68,21 @@ def build_menu(w, sc):
                     m.append(("assign", [[flat[0]], [flat[1]]], [(pid, 1, pool.avail_ram_pool), (pid, 1, 1)]))
                     m.append(("assign", [[flat[0]], [flat[1]]], [(pid, 1, 1), (pid, 1, 1)]))
     # dependency / lifecycle violations
+    running_now = [c for p in ex.pools for c in p.active_containers]
     for p in w.pipelines:
         ops = list(p.runtime_status().operator_states)
         for op in ops:
-            if op.parents and op.state().value in (P, F) and any(par.state().value in (P, F) for par in op.parents):
-                m.append(("assign", [[op]], [(0, 1, r0)]))                         # child alone, parent not done
-                par = [q for q in op.parents if q.state().value in (P, F)][0]
-                m.append(("assign", [[op, par]], [(0, 1, r0)]))                    # child before parent in one container
-                m.append(("assign", [[op], [par]], [(0, 1, r0), (0, 1, r0)]))      # child's container listed first
+            if op.parents and op.state().value in (P, F) and any(par.state().value != C for par in op.parents):
+                # child alone while a parent is unfinished in ANY state (pending, failed, assigned, running, suspending)
+                m.append(("assign", [[op]], [(0, 1, r0)]))
+                if running_now:
+                    c0 = running_now[0]
+                    m.append(("suspend+assign", c0.container_id, c0.pool_id, [op], (c0.pool_id, 1, r0)))
+                free = [q for q in op.parents if q.state().value in (P, F)]
+                if free:
+                    par = free[0]
+                    m.append(("assign", [[op, par]], [(0, 1, r0)]))                    # child before parent in one container
+                    m.append(("assign", [[op], [par]], [(0, 1, r0), (0, 1, r0)]))      # child's container listed first
                 break
         busy = [op for op in ops if op.state().value not in (P, F)]
         if busy:
@@ -88,6 +97,8 @@ def build_menu(w, sc):
         m.append(("suspend", cid, where.get(cid, 0)))
     m.append(("suspend", "c999", 0))
     running = [c for p in ex.pools for c in p.active_containers]
+    if len(running) > 1:
+        m.append(("suspend-many", [(c.container_id, c.pool_id) for c in running]))     # every running container at once
     if running:
         c = running[0]
         m.append(("suspend", c.container_id, w.npools))                            # pool that does not exist
@@ -116,6 +127,9 @@ def realize(w, item):
             asg.append(a)
     elif item[0] == "suspend":
         sus.append(Suspend(item[1], item[2]))
+    elif item[0] == "suspend-many":
+        for cid, pid in item[1]:
+            sus.append(Suspend(cid, pid))
     elif item[0] == "suspend+assign":
         sus.append(Suspend(item[1], item[2]))
         pid, cpu, ram = item[4]
@@ -196,6 +210,10 @@ def scenarios(tier):
                                         ops=[[seg(2, tps, 1)], [seg(1, tps, 1)], [seg(1, tps, 1)]]),
                                    dict(prio="B", arrival=1, parents=[[], [0], [0]],
                                         ops=[[seg(1, tps, 1)], [seg(1, tps, 1)], [seg(1, tps, 3)]])]))
+    # G: chain of three, multi-operator containers: prefix container [a,b], suspension, child c outside
+    out.append(dict(name="G-chain3-tps2", tps=2, pools=1, cpus=3, ram=64, overcommit=False, multi=True, r0=32,
+                    horizon=6 if tier == "quick" else 8,
+                    pipelines=[dict(prio="B", arrival=0, parents=[[], [0], [1]], ops=[[seg(1, 2, 1)], [seg(2, 2, 1)], [seg(1, 2, 1)]])]))
     # D: large allocations so that write-outs take several ticks; tiny ones so they take 0/1
     out.append(dict(name="D-long-writeout", tps=2, pools=1, cpus=4, ram=64, overcommit=False, multi=True, r0=32,
                     horizon=8 if tier == "quick" else 10,
